@@ -49,6 +49,11 @@ PROPS = {
               "abs_diff_ne!: the scalar's abs_diff_eq with default epsilon, specified by ApproxSpecR (|a-b| <= eps); for Xq eps = 2^-52",
               "planar with fovy = 0 divides by zero in exact arithmetic (IEEE infinity in floats): float-only limit case, not claimed"],
              trusted=["rustc monomorphisation of the generic code at Xq"]),
+    "C18": P(18, assumptions=["model (coq/Model/Approx.v) is hand-written; tied to /repo by the exact-arithmetic correspondence of this run",
+              "the scalar relations (abs_diff_eq / relative_eq / ulps_eq of the scalar type) are oracles: the theorems hold for an arbitrary scalar relation",
+              "Basis2/Basis3 values with arbitrary matrices are built by transmuting a matrix (single-field struct) in the harness only",
+              "native f32/f64: the compound relations are compared with the conjunction of the scalar answers per component (clauses native:*)"],
+             trusted=["rustc monomorphisation of the generic code at Xq, f32, f64", "the approx crate's scalar impls (oracle)"]),
     "C12": P(12, assumptions=["model (coq/Model/Point.v) is hand-written; tied to /repo by the exact-arithmetic correspondence of this run",
               "integer scalar types: only no-overflow inputs", "centroid of the empty list divides by cast(0): outside the property (non-empty lists)"],
              trusted=["rustc monomorphisation of the generic code at Xq and i32"]),
